@@ -54,3 +54,20 @@ Definition fstat_q (e : list Q) (b : Q) (W : list (list Q)) : Q :=
 (* sqrt oracle contract up to a relative tolerance (used where the argument is not a perfect square) *)
 Definition sqrt_tbl_close (tol : Q) (tbl : list (Q * Q)) : bool :=
   forallb (fun xs => qrelclose tol (snd xs * snd xs) (fst xs) && Qle_bool 0 (snd xs)) tbl.
+
+(* labs route (fff_mahalanobis): Cholesky factor L and the solution y of L y = d are
+   supplied by the harness (exact rationals) and checked here: L lower triangular
+   with positive diagonal, L L^t = V, L y = effect - baseline. *)
+Fixpoint lower_posdiag_from (i : nat) (L : list (list Q)) : bool :=
+  match L with
+  | [] => true
+  | row :: rest =>
+      Qltb 0 (nth i row 0) && forallb (fun x => Qeq_bool x 0) (skipn (S i) row)
+      && lower_posdiag_from (S i) rest
+  end.
+Definition qtrans (A : list (list Q)) : list (list Q) := mtrans 0%Q (length A) A.
+Definition chol_ok (V L : list (list Q)) : bool :=
+  lower_posdiag_from 0 L && qmat_eqb' (qmm (length V) L (qtrans L)) V.
+Definition labs_solve_ok (V L : list (list Q)) (y e : list Q) (b : Q) : bool :=
+  chol_ok V L && list_eqb Qeq_bool (qmv L y) (map (fun x => x - b) e).
+Definition labs_fstat_q (y : list Q) : Q := qdot y y / inject_Z (Z.of_nat (length y)).
